@@ -11,8 +11,8 @@ import (
 )
 
 const (
-	CookieNoRun = 12346
-	CookieRun   = 12347
+	CookieNoRun  = 12346
+	CookieRun    = 12347
 	FrozenCookie = 13766
 )
 
